@@ -896,6 +896,11 @@ impl Deref for OsIpcSharedMemory {
 
     #[inline]
     fn deref(&self) -> &[u8] {
+        if self.ptr.is_null() {
+            // A zero-length region has no mapping (see `map_file`): an empty slice must not be
+            // built from the null pointer.
+            return &[];
+        }
         unsafe { slice::from_raw_parts(self.ptr, self.length) }
     }
 }
@@ -919,8 +924,10 @@ impl OsIpcSharedMemory {
         unsafe {
             let store = BackingStore::new(length);
             let (address, _) = store.map_file(Some(length));
-            for element in slice::from_raw_parts_mut(address, length) {
-                *element = byte;
+            if length > 0 {
+                for element in slice::from_raw_parts_mut(address, length) {
+                    *element = byte;
+                }
             }
             OsIpcSharedMemory::from_raw_parts(address, length, store)
         }
@@ -930,7 +937,9 @@ impl OsIpcSharedMemory {
         unsafe {
             let store = BackingStore::new(bytes.len());
             let (address, _) = store.map_file(Some(bytes.len()));
-            ptr::copy_nonoverlapping(bytes.as_ptr(), address, bytes.len());
+            if !bytes.is_empty() {
+                ptr::copy_nonoverlapping(bytes.as_ptr(), address, bytes.len());
+            }
             OsIpcSharedMemory::from_raw_parts(address, bytes.len(), store)
         }
     }
